@@ -16,12 +16,12 @@ FROZEN_CLOCK = {"start": 1750000000.0, "deltas": [0.0]}
 class World:
     """Absolute locations inside one sandbox ("disk")."""
 
-    def __init__(self, sandbox: str, in_rel: str = "in", out_rel: str = "out", cwd_rel: str = "cwd"):
+    def __init__(self, sandbox: str, in_rel: str = "in", out_rel: str = "out", cwd_rel: str = "cwd", tpl_rel: str = "tpl"):
         self.sandbox = os.path.abspath(sandbox)
         self.in_dir = os.path.join(self.sandbox, in_rel)
         self.out_dir = os.path.normpath(os.path.join(self.sandbox, out_rel))
         self.cwd = os.path.normpath(os.path.join(self.sandbox, cwd_rel))
-        self.tpl_dir = os.path.join(self.sandbox, "tpl")
+        self.tpl_dir = os.path.normpath(os.path.join(self.sandbox, tpl_rel))
         for d in (self.in_dir, self.cwd):
             os.makedirs(d, exist_ok=True)
 
@@ -120,7 +120,7 @@ class World:
             "env_unset": ["DSDL_INCLUDE_PATH"],
         }  # type: typing.Dict[str, typing.Any]
         if opts.get("pp_prog"):
-            inv["extprog"] = "ok"
+            inv["extprog"] = "rename" if opts["pp_prog"] == "rename" else "ok"
         inv.update(plan)
         return inv
 
